@@ -129,17 +129,10 @@ def check_dist(dist, c, key, who, ctx, numinv_fwd=False, numinv_inv=False, fwd_o
 
 
 def _kink_ok(subj, z, x, ld, tol):
-    import itertools
-    zf = np.asarray(z, np.float64).reshape(-1)
-    tied = [i for i, v in enumerate(zf) if float(v) in (0.0, 1.0, -1.0, 2.0, -2.0, 3.0, -3.0)][:4]
-    for signs in itertools.product((1.0, -1.0), repeat=len(tied)):
-        zn = zf.copy()
-        for i, sg in zip(tied, signs):
-            zn[i] += sg * 1e-9 * (1 + abs(zn[i]))
-        Jn = bc.jac_transform(subj, zn.reshape(np.shape(z)))
-        if np.all(np.isfinite(Jn)) and abs(ld + np.linalg.slogdet(Jn)[1]) <= tol + 1e-5 * (1 + abs(ld)):
-            return True
-    return False
+    def _ld_at(zn):
+        Jn = bc.jac_transform(subj, zn)
+        return -float(np.linalg.slogdet(Jn)[1]) if np.all(np.isfinite(Jn)) else np.inf
+    return bc.kink_match(_ld_at, z, [], ld, tol + 1e-5 * (1 + abs(ld)))
 
 
 # ------------------------------------------------------------------------------------------------------
